@@ -272,6 +272,9 @@ class C17(Property):
                                     (3, "with"), (1, "with-exc")]),
           "api": W.weighted("api", [(5, None), (1, "jack")]),
           "gchunk": gchunk,
+          # backend variation: PyAudio's private stream registry kept
+          # faithfully, or left empty (streams registered elsewhere)
+          "registry": W.weighted("registry", [(5, "faithful"), (1, "empty")]),
           # a second, independent manager with its own player, alive all along
           "second_manager": W.chance("aio2", 1, 4),
           "after": {"close2": bool(W.choose("close2", 2)),
@@ -446,6 +449,7 @@ class C17(Property):
       return 1 + S.choose("stall.k", 50)
 
     world = backend.World(sched, stall_fn)
+    world.registry = workload.get("registry", "faithful")
     backend.set_world(world)
     if workload.get("observe") and \
        workload["observe"]["what"] == "write-raises":
